@@ -110,6 +110,16 @@ func minimiseCli(r *clisim.Runner, sc *clisim.Scenario, key, id string, budget i
 		return &d
 	}
 	best := clone(sc)
+	// the plain invocation (from the package directory, on a library package) first
+	for _, simplify := range []func(c *clisim.Scenario) bool{
+		func(c *clisim.Scenario) bool { was := c.FromRoot; c.FromRoot = false; return was },
+		func(c *clisim.Scenario) bool { was := c.MainPkg; c.MainPkg = false; return was },
+		func(c *clisim.Scenario) bool { was := c.IncompleteMod; c.IncompleteMod = false; return was },
+	} {
+		if c := clone(best); simplify(c) && try(c) {
+			best = c
+		}
+	}
 	for changed := true; changed && execs < budget; {
 		changed = false
 		for i := len(best.Steps) - 1; i >= 0 && len(best.Steps) > 1; i-- {
@@ -302,20 +312,24 @@ func CliCheck(prop, tier string) error {
 	if prop == "C17" {
 		// library half: Mocker.Mock driven in-process with a fault-injecting io.Writer
 		gb, err := BuildGensim(s)
-		if err != nil {
+		if why, ok := LibHalfUnavailable(err); ok {
+			fmt.Printf("NOTE: %s %s: the library-level half was not run: %s\n", prop, tier, why)
+			cov["library_half"] = map[string]any{"not_run": why}
+		} else if err != nil {
 			return err
+		} else {
+			gt := GenTiers[tier]
+			gt.CrossProcess = 0
+			oc, err := genRun(s, gb, "C17", tier, gt, seed, known, len(lines)+len(knownLines))
+			if err != nil {
+				return err
+			}
+			lines = append(lines, oc.lines...)
+			knownLines = append(knownLines, oc.knownLines...)
+			libEvals, libDistinct = oc.res.Generations, len(oc.sigs)
+			cov["library_half"] = map[string]any{"what": "Mocker.Mock(w, names...) through the public API with a writer that fails at once / after 0.1% / 50% / 99.9% of the bytes, and name lists with an unknown name, a non-interface or an unformattable alias at a tape-chosen position; observable: number of Write calls, bytes of the first call, returned error",
+				"generations": oc.res.Generations, "cells": oc.cells, "distinct_cases": len(oc.sigs), "faults_fired": oc.res.Faults, "samples": oc.res.Samples}
 		}
-		gt := GenTiers[tier]
-		gt.CrossProcess = 0
-		oc, err := genRun(s, gb, "C17", tier, gt, seed, known, len(lines)+len(knownLines))
-		if err != nil {
-			return err
-		}
-		lines = append(lines, oc.lines...)
-		knownLines = append(knownLines, oc.knownLines...)
-		libEvals, libDistinct = oc.res.Generations, len(oc.sigs)
-		cov["library_half"] = map[string]any{"what": "Mocker.Mock(w, names...) through the public API with a writer that fails at once / after 0.1% / 50% / 99.9% of the bytes, and name lists with an unknown name, a non-interface or an unformattable alias at a tape-chosen position; observable: number of Write calls, bytes of the first call, returned error",
-			"generations": oc.res.Generations, "cells": oc.cells, "distinct_cases": len(oc.sigs), "faults_fired": oc.res.Faults, "samples": oc.res.Samples}
 	}
 	cov["evaluations"] = total.MoqRuns + libEvals
 	cov["distinct_nontrivial"] = len(sigs) + libDistinct
